@@ -140,8 +140,18 @@ func computeFieldAliases(info *types.Info, body *ast.BlockStmt) map[string]strin
 		return out
 	}
 	type cand struct {
-		v   types.Object
-		lit *ast.CompositeLit
+		v    types.Object
+		lit  *ast.CompositeLit
+		bind map[types.Object]ast.Expr // a one-line constructor's parameters -> the call's arguments
+	}
+	prog := progOfInfo[info]
+	ctorOf := func(e ast.Expr) (*ast.CompositeLit, map[types.Object]ast.Expr) {
+		c, ok := ast.Unparen(e).(*ast.CallExpr)
+		if !ok || prog == nil {
+			return nil, nil
+		}
+		cl, _, b := constructorLiteral(prog, info, c)
+		return cl, b
 	}
 	var cands []cand
 	assigned := map[types.Object]int{}
@@ -168,7 +178,9 @@ func computeFieldAliases(info *types.Info, body *ast.BlockStmt) map[string]strin
 						assigned[o]++
 						if len(x.Lhs) == len(x.Rhs) {
 							if cl := litOf(x.Rhs[i]); cl != nil {
-								cands = append(cands, cand{o, cl})
+								cands = append(cands, cand{o, cl, nil})
+							} else if cl, b := ctorOf(x.Rhs[i]); cl != nil {
+								cands = append(cands, cand{o, cl, b})
 							}
 						}
 					}
@@ -187,7 +199,9 @@ func computeFieldAliases(info *types.Info, body *ast.BlockStmt) map[string]strin
 					assigned[o]++
 					if i < len(x.Values) {
 						if cl := litOf(x.Values[i]); cl != nil {
-							cands = append(cands, cand{o, cl})
+							cands = append(cands, cand{o, cl, nil})
+						} else if cl, b := ctorOf(x.Values[i]); cl != nil {
+							cands = append(cands, cand{o, cl, b})
 						}
 					}
 				}
@@ -228,11 +242,24 @@ func computeFieldAliases(info *types.Info, body *ast.BlockStmt) map[string]strin
 				continue
 			}
 			// the initialiser: an access path rooted in a variable that is assigned at most once
-			ro := rootObj(info, kv.Value)
+			val := kv.Value
+			if c.bind != nil {
+				// inside the constructor the initialiser names a parameter: the argument of the call
+				if a, has := c.bind[objOfIdent(info, val)]; has {
+					val = a
+				} else {
+					continue
+				}
+				// the field must not be written by the type's own methods either
+				if sel := fieldOfLit(info, c.lit, kid.Name); sel == nil || (prog != nil && prog.fieldEverAssigned(info, sel)) {
+					continue
+				}
+			}
+			ro := rootObj(info, val)
 			if ro == nil || assigned[ro] > 1 {
 				continue
 			}
-			if pth, okp := pathOf(info, kv.Value); okp {
+			if pth, okp := pathOf(info, val); okp {
 				out[k] = pth
 			}
 		}
@@ -1079,3 +1106,17 @@ func rootObj(info *types.Info, e ast.Expr) types.Object {
 }
 
 func pkgOf(p *Prog, short string) *packages.Package { return p.Pkg(short) }
+
+// fieldOfLit: the field object a keyed element of a struct literal initialises.
+func fieldOfLit(info *types.Info, lit *ast.CompositeLit, name string) *types.Var {
+	st := structOf(info.TypeOf(lit))
+	if st == nil {
+		return nil
+	}
+	for i := 0; i < st.NumFields(); i++ {
+		if st.Field(i).Name() == name {
+			return st.Field(i)
+		}
+	}
+	return nil
+}
